@@ -311,6 +311,75 @@ def mask_role(x, mp):
     return None
 
 
+def _intercepted_by_spec(an, to_tree, c, f, vals, shape):
+    from engine.specialize import Spec
+    ftt = an.ft(to_tree)
+    state = {}
+
+    def origin(sp, x, node):
+        out = set()
+        for k, pl in sp.sources(x, node):
+            if k == "expr" and isinstance(pl, ast.AST):
+                out.add(id(pl))
+            elif k == "param":
+                out.add(("param", pl))
+            else:
+                return None
+        return frozenset(out) or None
+
+    def decide(e, node, sp):
+        if sp.rd is None:
+            return None
+        if "v" not in state:
+            os_ = [origin(sp, v, c) for v in vals]
+            state["v"] = {o for o in os_ if o}
+
+        def is_v(x):
+            return isinstance(x, ast.Name) and origin(sp, x, node) in state["v"]
+
+        def cls_of(t):
+            return ftt.class_spec(t, {}) or []
+
+        def is_listy(spec):
+            return bool(spec) and all(s_ in ("list", "tuple") or (s_ in an.model.classes and (an.model.classes[s_].is_subclass_of("list") or s_ == "ContainerValueMixin"))
+                                      for s_ in spec)
+        if is_v(e):
+            return True
+        if isinstance(e, ast.Call) and isinstance(e.func, ast.Name):
+            fn_ = e.func.id
+            if fn_ == "isinstance" and len(e.args) == 2 and is_v(e.args[0]):
+                spec = cls_of(e.args[1])
+                if shape == "items":
+                    if is_listy(spec):
+                        return True
+                    if spec == ["Config"]:
+                        return False
+                else:
+                    if "Config" in spec:
+                        return True
+                    if is_listy(spec):
+                        return False
+                return None
+            if fn_ == "len" and len(e.args) == 1 and is_v(e.args[0]) and shape == "items":
+                return True
+            if fn_ in ("all", "any") and len(e.args) == 1 and isinstance(e.args[0], (ast.GeneratorExp, ast.ListComp)) and shape == "items":
+                ge = e.args[0]
+                if len(ge.generators) == 1 and not ge.generators[0].ifs and isinstance(ge.generators[0].target, ast.Name) and is_v(ge.generators[0].iter):
+                    elt, neg = ge.elt, False
+                    while isinstance(elt, ast.UnaryOp) and isinstance(elt.op, ast.Not):
+                        elt, neg = elt.operand, not neg
+                    if isinstance(elt, ast.Call) and isinstance(elt.func, ast.Name) and elt.func.id == "isinstance" and len(elt.args) == 2 \
+                            and isinstance(elt.args[0], ast.Name) and elt.args[0].id == ge.generators[0].target.id and "Config" in cls_of(elt.args[1]):
+                        # every item is a configuration, the list is not empty
+                        return (not neg) if fn_ == "all" else (not neg)
+        return None
+    try:
+        sp = Spec(an, to_tree, decide)
+    except RecursionError:
+        return False
+    return bool(state.get("v")) and c not in sp.nodes and f in sp.nodes
+
+
 def intercepted(an, to_tree, g, edge_node):
     """An unforwarding edge in g is harmless iff to_tree renders the items of the same value itself,
     through a forwarding edge, on a guard that depends on nothing but that value."""
@@ -368,6 +437,12 @@ def intercepted(an, to_tree, g, edge_node):
         if found is None:
             return False, base
         f, v = found
+        # the same question by specialisation: assume the value is what the unforwarding edge would render (a non-empty list
+        # of configurations / a configuration) -- is the encoder call then unreachable and the forwarding edge reachable?
+        if _intercepted_by_spec(an, to_tree, c, f, vals, shape):
+            return True, ("%s has no mask to hand on, but for a value it would render (%s) Config.to_tree never reaches the encoder: "
+                          "it renders the value itself through the forwarding edge at line %s"
+                          % (g.qualname, "a non-empty list of configurations" if shape == "items" else "a configuration", f.lineno))
         # mutually exclusive within one iteration, interception first
         if g0.path(f, lambda n: n is c, may_raise=oracle, stop=lambda n: n in loop_heads, from_successors=True):
             return False, base + " (the intercepting branch falls through to the encoder)"
